@@ -1,7 +1,9 @@
 import EaselModel.Containers.KeyhashLemmas
 import EaselModel.Containers.HeapLemmas
+import EaselModel.Containers.HeapHistory
 import EaselModel.Containers.RedBlackLemmas
 import EaselModel.Containers.StackLemmas
+import EaselModel.Containers.StackHistory
 import EaselModel.Containers.QuicksortLemmas
 /-! # C19 — key tables, heaps, trees, stacks and index sorts behave as their abstract types
 
@@ -38,6 +40,22 @@ theorem keyhash_never_faults_partial (H : Key → Nat → Nat) (hH : HashOK H) (
     (run H (create size kalloc salloc) ops).isSome = true := by
   rw [keyhash_refines_partial H hH size kalloc salloc h1 h2 h3 ops hnul]
   exact specRun_isSome_of_no_get ops [] hget
+
+/-- FULL statement for the C-string API (`n = -1`: `storeStr`, `lookupStr`; any argument bytes, read up to the first NUL):
+    no hypothesis on the keys is needed — the restriction only concerns keys passed by explicit length -/
+theorem keyhash_refines_cstrings (H : Key → Nat → Nat) (hH : HashOK H) (size kalloc salloc : Nat)
+    (h1 : 0 < size) (h2 : 0 < kalloc) (h3 : 0 < salloc) (ops : List Op)
+    (hstr : ∀ op ∈ ops, ∀ k, op ≠ .store k ∧ op ≠ .lookup k) :
+    run H (create size kalloc salloc) ops = specRun [] ops := by
+  apply keyhash_refines_partial H hH size kalloc salloc h1 h2 h3 ops
+  intro op hop
+  cases op with
+  | store k => exact absurd rfl (hstr _ hop k).1
+  | lookup k => exact absurd rfl (hstr _ hop k).2
+  | _ => trivial
+
+/-- the two APIs agree on NUL-free keys -/
+theorem keyhash_cstr_of_nulfree (k : Key) (h : (0 : UInt8) ∉ k) : cstrOf k = k := cstrOf_eq_self k h
 
 /-- … in particular with Jenkins' one-at-a-time hash as written in `jenkins_hash` (signed `char` arithmetic) -/
 theorem keyhash_refines_jenkins_partial (size kalloc salloc : Nat) (h1 : 0 < size) (h2 : 0 < kalloc) (h3 : 0 < salloc)
@@ -89,6 +107,8 @@ example : run jenkins (create 1 1 1)
     = some [.stored false 0, .stored false 1, .stored true 0, .stored false 2, .stored false 3, .found 2, .notfound, .key [4], .done,
             .stored true 3, .done, .stored false 0, .num 1] := by decide +kernel
 example : Op.NulFree (.store [1, 2]) := by simp [Op.NulFree]
+example : run jenkins (create 1 1 1) [.storeStr [7, 0, 9], .lookupStr [7], .lookupStr [7, 0, 1], .storeStr [7], .get 0]
+    = some [.stored false 0, .found 0, .found 0, .stored true 0, .key [7]] := by decide +kernel
 example : HashOK (fun _ _ => 0) := fun _ _ h => h
 end Keyhash
 
@@ -125,6 +145,12 @@ theorem heap_extract_null (h : Heap.Heap) (hi : Heap.Inv h) :
 /-- regression: the code before the fix (`*opt_val = 0` with `opt_val == NULL` in the empty-heap branch) faults -/
 theorem heap_extract_null_unguarded_faults (isMax : Bool) : extractTopNullUnguarded (create isMax) = none := by
   simp [extractTopNullUnguarded, create]
+
+/-- FOR EVERY HISTORY (any interleaving of insertions, extractions with or without a result pointer, peeks, counts,
+    reuse), min and max heaps: no fault, and every answer is the one of the abstract priority queue (the multiset kept as
+    a best-first sorted list: extraction returns its head, i.e. the minimum resp. maximum of what is currently inside) -/
+theorem heap_history (isMax : Bool) (ops : List HOp) : runH (create isMax) ops = some (specRunH isMax [] ops) :=
+  heap_history_refines isMax ops
 
 /-- extracting everything yields the sorted multiset of what was inserted (min-heap: ascending, max-heap: descending),
     for every input list (duplicates, sorted, reverse sorted, …) -/
@@ -229,6 +255,25 @@ theorem stack_discardSelected {α : Type} (s : Stack.Stack α) (discard : α →
 theorem stack_shuffle {α : Type} (rollFuel : Nat) (r r' : EaselModel.Random.Rng) (s s' : Stack.Stack α)
     (h : shuffle rollFuel r s = some (s', r')) : s'.data.toList.Perm s.data.toList ∧ s'.nalloc = s.nalloc :=
   shuffle_perm rollFuel r r' s s' h
+
+/-- FOR EVERY HISTORY without shuffle (push, pop, DiscardTopN, DiscardSelected with any predicate, Reuse, count) from any
+    valid stack: no fault, and every answer is the one of the abstract LIFO list -/
+theorem stack_history {α : Type} (rollFuel : Nat) (s : Stack.Stack α) (hi : Stack.Inv s) (ops : List (SOp α))
+    (hns : ∀ op ∈ ops, op.isShuffle = false) : runS rollFuel s ops = some (specRunS s.data.toList ops) :=
+  stack_history_refines rollFuel s hi ops hns
+
+/-- histories with shuffles (generators in arbitrary states) mixed with pushes, selective discards, reuse, counts: whenever
+    the run returns, the content is a permutation of what the abstract list predicts, and all answers agree -/
+theorem stack_history_shuffles {α : Type} (rollFuel : Nat) (s : Stack.Stack α) (hi : Stack.Inv s) (l : List α)
+    (hp : s.data.toList.Perm l) (ops : List (SOp α)) (hof : ∀ op ∈ ops, op.orderFree = true) :
+    (∀ s', finalS rollFuel s ops = some s' → s'.data.toList.Perm (specFinalS l ops) ∧ Stack.Inv s') ∧
+    (∀ outs, runS rollFuel s ops = some outs → outs = specRunS l ops) :=
+  ⟨fun s' h => stack_history_multiset rollFuel s hi l hp ops hof s' h,
+   fun outs h => stack_history_multiset_outputs rollFuel s hi l hp ops hof outs h⟩
+
+/-- the only way an operation does not return on a valid stack is the Roll loop of a shuffle running out of fuel -/
+theorem stack_no_fault {α : Type} (rollFuel : Nat) (s : Stack.Stack α) (hi : Stack.Inv s) (op : SOp α) :
+    stepS rollFuel s op = none ↔ ∃ r, op = .shuffle r ∧ shuffle rollFuel r s = none := stepS_none_iff rollFuel s hi op
 
 /-- Convert2String gives the pushed characters in push order (C string: up to the first NUL, if one was pushed) -/
 theorem stack_convert2String (s : Stack.Stack UInt8) (h : (0 : UInt8) ∉ s.data.toList) :
